@@ -78,7 +78,6 @@ def gen_exhaustive(chk, dist):
     rng = chk.rng
     stratum = 1.0 if chk.tier == "thorough" else 0.022
     docs = docs_small()
-    cases = []
     for cfg in cfgs_small():
         extra = 4 if cfg[1] else 0
         for d in docs:
@@ -87,9 +86,8 @@ def gen_exhaustive(chk, dist):
                     for H in range(1, 7):
                         if stratum < 1.0 and rng.random() >= stratum:
                             continue
-                        cases.append(mkcase(cfg, [[W + extra, H, 0, 0, S(d), cur]]))
                         dist["exhaustive_one_state"] += 1
-    return cases
+                        yield mkcase(cfg, [[W + extra, H, 0, 0, S(d), cur]])
 
 
 def rand_text(rng, alpha, maxlines=6):
@@ -218,6 +216,20 @@ def describe_state(cfg, st):
         cfg[4], unS(cfg[5][1]) if cfg[5][0] else None, st[0], st[1], st[2], st[3], unS(st[4]), st[5])
 
 
+CHUNK = 40000
+
+
+def chunks_of(it, n):
+    buf = []
+    for x in it:
+        buf.append(x)
+        if len(buf) >= n:
+            yield buf
+            buf = []
+    if buf:
+        yield buf
+
+
 def main(tier):
     chk = Check(PROP, tier)
     pr = chk.proofs("Props/C11.v", tables=TABLES)
@@ -231,49 +243,24 @@ def main(tier):
     for d in ("narrow_printable", "tabs", "wide", "control"):
         dist["random_sequence_" + d] = 0
     corpus = load_corpus(PROP)
-    cases = corpus + WITNESSES + gen_exhaustive(chk, dist) + gen_random(chk, dist)
 
-    oracle_bad = set()
+    def all_cases():
+        for c in corpus:
+            yield c
+        for c in WITNESSES:
+            yield c
+        for c in gen_random(chk, dist):
+            yield c
+        for c in gen_exhaustive(chk, dist):
+            yield c
+
     sub = {d: {"states_in_scope": 0, "oracle_failures": 0, "by_cause": {}} for d in ("narrow_printable", "wide", "control")}
     modes = {"wrap": 0, "nowrap": 0}
-    nontriv = {}
-
-    def on_state(ci, si, cfg, st, res, obs):
-        if res[0] != 0 or obs is None:
-            return
-        if not in_scope(cfg, st, obs):
-            return
-        chartab = cases[ci][1]
-        dom = domain_of(cfg, chartab, st)
-        sub[dom]["states_in_scope"] += 1
-        modes["wrap" if cfg[0] else "nowrap"] += 1
-        if obs["vs"] or obs["vs2"] or obs["hs"]:
-            nontriv[ci] = True
-        bad = oracle_state(cfg, st, obs)
-        if bad:
-            clause, fam = bad
-            tags = tags_of(cfg, chartab, st, obs, fam)
-            if match_known(chk.known, tags) is None:
-                oracle_bad.add(ci)       # a failing input that is not one of the known findings
-            sub[dom]["oracle_failures"] += 1
-            sub[dom]["by_cause"][tags["cause"]] = sub[dom]["by_cause"].get(tags["cause"], 0) + 1
-            hist = cases[ci][2][:si + 1]
-            chk.violation("oracle", "%s | %s | previous scroll (v, v2, h)=%r | rows drawn: %r" % (
-                clause, describe_state(cfg, st), obs["prev"],
-                ["".join(obs["scr"].data_buffer[y + obs["ypos"]][x + obs["xpos"] + obs["mw"]].char for x in range(obs["bw"])) for y in range(obs["H"])]),
-                tags, {"case": [cfg, chartab, hist, FIXED], "state_index": si, "clause": clause,
-                       "how": "harness/c11_impl.py Window11(cfg).render(state) for each state in order, one Window"})
-
-    t_impl = time.time()
-    impl_results = impl_cases(cases, on_state)
-    chk.coverage["impl_seconds"] = round(time.time() - t_impl, 1)
-    for ci, c in enumerate(cases):
-        chk.count_case(c, nontriv.get(ci, False))
-        if ci % 1499 == 0:
-            chk.sample({"config": describe_state(c[0], c[2][0]) if c[2] else "", "n_states": len(c[2]),
-                        "impl_result_head": [r[:7] for r in impl_results[ci][:2]]})
-    chk.coverage["input_distribution"] = dict(dist, corpus=len(corpus), states_by_mode=modes)
-    chk.coverage["sub_domains"] = sub
+    timing = {"impl": 0.0, "model": 0.0, "vm": 0.0}
+    vm_total = 500 if chk.tier == "thorough" else 120
+    vm_done = 0
+    ncases = 0
+    retried = [0]
 
     def tagger(c, a, m):
         for j, (x, y) in enumerate(zip(a, m if isinstance(m, list) else [])):
@@ -294,30 +281,79 @@ def main(tier):
                 return "state %d: %s | impl=%r model=%r" % (j, describe_state(c[0], c[2][j]), x[:7], y[:7] if isinstance(y, list) else y)
         return "shape"
 
-    t_model = time.time()
-    model_results, nbad = correspondence(chk, "c11", cases, impl_results, tagger, describe=describe,
-                                         oracle_failed=lambda i: i in oracle_bad)
-    chk.coverage["model_seconds"] = round(time.time() - t_model, 1)
+    for cases in chunks_of(all_cases(), CHUNK):
+        oracle_bad = set()
+        nontriv = {}
+
+        def on_state(ci, si, cfg, st, res, obs):
+            if res[0] != 0 or obs is None:
+                return
+            if not in_scope(cfg, st, obs):
+                return
+            chartab = cases[ci][1]
+            dom = domain_of(cfg, chartab, st)
+            sub[dom]["states_in_scope"] += 1
+            modes["wrap" if cfg[0] else "nowrap"] += 1
+            if obs["vs"] or obs["vs2"] or obs["hs"]:
+                nontriv[ci] = True
+            bad = oracle_state(cfg, st, obs)
+            if bad:
+                clause, fam = bad
+                tags = tags_of(cfg, chartab, st, obs, fam)
+                if match_known(chk.known, tags) is None:
+                    oracle_bad.add(ci)       # a failing input that is not one of the known findings
+                sub[dom]["oracle_failures"] += 1
+                sub[dom]["by_cause"][tags["cause"]] = sub[dom]["by_cause"].get(tags["cause"], 0) + 1
+                hist = cases[ci][2][:si + 1]
+                chk.violation("oracle", "%s | %s | previous scroll (v, v2, h)=%r | rows drawn: %r" % (
+                    clause, describe_state(cfg, st), obs["prev"],
+                    ["".join(obs["scr"].data_buffer[y + obs["ypos"]][x + obs["xpos"] + obs["mw"]].char for x in range(obs["bw"])) for y in range(obs["H"])]),
+                    tags, {"case": [cfg, chartab, hist, FIXED], "state_index": si, "clause": clause,
+                           "how": "harness/c11_impl.py Window11(cfg).render(state) for each state in order, one Window"})
+
+        t0 = time.time()
+        impl_results = impl_cases(cases, on_state, retried)
+        timing["impl"] += time.time() - t0
+        for ci, c in enumerate(cases):
+            chk.count_case(c, nontriv.get(ci, False))
+            if (ncases + ci) % 1499 == 0:
+                chk.sample({"config": describe_state(c[0], c[2][0]) if c[2] else "", "n_states": len(c[2]),
+                            "impl_result_head": [r[:7] for r in impl_results[ci][:2]]})
+        t0 = time.time()
+        model_results, nbad = correspondence(chk, "c11", cases, impl_results, tagger, describe=describe,
+                                             oracle_failed=lambda i: i in oracle_bad)
+        timing["model"] += time.time() - t0
+
+        # extraction/driver cross-check inside Coq on a sample of this chunk
+        k = min(len(cases), max(20, vm_total * len(cases) // (CHUNK * 3)) if chk.tier == "thorough" else vm_total)
+        k = min(k, vm_total - vm_done) if vm_total > vm_done else 0
+        if k > 0:
+            t0 = time.time()
+            idx = sorted(chk.rng.sample(range(len(cases)), k))
+            pairs = [(cases[i], impl_results[i]) for i in idx]
+            bad, logs = vm_crosscheck(PROP, "run_C11", "Model.C11_Scroll Model.C11_CopyBody", pairs, per_file=60)
+            vm_done += len(pairs)
+            model_bad = set(i for i, (a, m) in enumerate(zip(impl_results, model_results)) if sx_norm(a) != m)
+            vm_bad = set(idx[b] for b in bad if isinstance(b, int))
+            if any(not isinstance(b, int) for b in bad):
+                chk.violation("tie", "vm_compute cross-check failed to run: " + (logs[0] if logs else ""), {"kind": "vm"}, {"log": logs}, no_input=True)
+            if vm_bad != (model_bad & set(idx)):
+                chk.violation("tie", "extracted model and in-Coq evaluation disagree on cases %r" % sorted(vm_bad ^ (model_bad & set(idx)))[:5],
+                              {"kind": "extraction"}, {"cases": [cases[i] for i in sorted(vm_bad ^ (model_bad & set(idx)))[:5]]}, no_input=True)
+            timing["vm"] += time.time() - t0
+        ncases += len(cases)
+        del impl_results, model_results
+
+    chk.coverage["input_distribution"] = dict(dist, corpus=len(corpus), states_by_mode=modes,
+                                              watchdog_retries=retried[0])
+    chk.coverage["sub_domains"] = sub
+    chk.coverage["vm_compute_crosschecked"] = vm_done
+    chk.coverage["phase_seconds"] = {k: round(v, 1) for k, v in timing.items()}
 
     # malformed stream: the model must answer bad_case
     mal = run_model("c11", MALFORMED)
     if any(m != [-999] for m in mal):
         chk.violation("tie", "model accepts a malformed case", {"kind": "malformed"}, {"results": mal}, no_input=True)
-
-    k = 500 if chk.tier == "thorough" else 120
-    idx = sorted(chk.rng.sample(range(len(cases)), min(k, len(cases))))
-    pairs = [(cases[i], impl_results[i]) for i in idx]
-    t_vm = time.time()
-    bad, logs = vm_crosscheck(PROP, "run_C11", "Model.C11_Scroll Model.C11_CopyBody", pairs, per_file=60)
-    chk.coverage["vm_seconds"] = round(time.time() - t_vm, 1)
-    chk.coverage["vm_compute_crosschecked"] = len(pairs)
-    model_bad = set(i for i, (a, m) in enumerate(zip(impl_results, model_results)) if sx_norm(a) != m)
-    vm_bad = set(idx[b] for b in bad if isinstance(b, int))
-    if any(not isinstance(b, int) for b in bad):
-        chk.violation("tie", "vm_compute cross-check failed to run: " + (logs[0] if logs else ""), {"kind": "vm"}, {"log": logs}, no_input=True)
-    if vm_bad != (model_bad & set(idx)):
-        chk.violation("tie", "extracted model and in-Coq evaluation disagree on cases %r" % sorted(vm_bad ^ (model_bad & set(idx)))[:5],
-                      {"kind": "extraction"}, {"cases": [cases[i] for i in sorted(vm_bad ^ (model_bad & set(idx)))[:5]]}, no_input=True)
 
     proof_gate(chk, pr)
     chk.coverage["rule"] = ("case = (window configuration, 1..40 states (size, position, text, cursor)) rendered through ONE real "
